@@ -868,8 +868,8 @@ def tier_c(run, thorough):
     bd = Bounded(run, 'C03/definition', 'C03/compare/oracle/definition-plain-measures',
                  'seeded stacks: %s conditions, stack sizes %s, value kinds %s (negative entries, ties, 0/1), methods %s, '
                  '%d seeds; compare() and the compare_* function; tolerance 1e-9; also 2 conditions (one dissimilarity) '
-                 'for cosine' % (conds, shapes, kinds, PLAIN, 3 if thorough else 1), function='compare')
-    for seed in range(3 if thorough else 1):
+                 'for cosine' % (conds, shapes, kinds, PLAIN, 2 if thorough else 1), function='compare')
+    for seed in range(2 if thorough else 1):
         for n_cond in conds:
             for si, (n1, n2) in enumerate(shapes):
                 for ki, kind in enumerate(kinds):
@@ -888,12 +888,12 @@ def tier_c(run, thorough):
     small = (2, 3, 4, 5) if thorough else (2, 3, 4)
     bd = Bounded(run, 'C03/rank-exhaustive[small]', 'C03/compare/oracle/rank-measures-all-weak-orders',
                  'ALL ordered pairs (a, b) of weak orders of n entries for n in %s (n = 3: the RDMs of 3 conditions; other n as '
-                 'plain vectors), methods %s, both argument orders; values are half-integers from -0.5; entries whose '
+                 'plain vectors), methods %s, both argument orders (tau-b on 5 entries: one); values are half-integers from -0.5; entries whose '
                  'definition is 0/0 masked' % (small, RANK), exhaustive=True, function='compare')
     for n in small:
         for w in _weak_orders(n):
             for m in RANK:
-                case = dict(n=n, a=list(w), method=m, swap=True)
+                case = dict(n=n, a=list(w), method=m, swap=not (n == 5 and m == 'kendall'))   # (b, a) as well; 5-entry tau-b: one order
                 if m == 'spearman':
                     case['skip_constant'] = True        # stacks with a constant vector: domain C03/degenerate-row
                 bd.check(orc_rank_exhaustive, case, 'weak-orders', function=FUNC[m])
@@ -915,7 +915,7 @@ def tier_c(run, thorough):
     bd.done()
     bds.append(bd)
 
-    n_a = 120 if thorough else 6
+    n_a = 60 if thorough else 6
     ustr = {'tau-a': 1, 'spearman': 1, 'rho-a': 1, 'kendall': 4} if thorough else {'tau-a': 4, 'spearman': 4, 'rho-a': 4, 'kendall': 16}
     bd = Bounded(run, 'C03/rank-exhaustive[6 entries, unsorted a]', 'C03/compare/oracle/rank-measures-all-weak-orders',
                  'RDMs of 4 conditions: %d seeded (unsorted) weak orders a x the 4683 weak orders b with b-strides %s' % (n_a, ustr),
